@@ -5,6 +5,7 @@ import (
 	"errors"
 	"fmt"
 	"io"
+	"sync"
 	"testing"
 
 	"github.com/platinummonkey/go-concurrency-limits/core"
@@ -486,5 +487,127 @@ func TestC14(t *testing.T) {
 			c.Ops = append(c.Ops, []int64{3 + int64(rng.Intn(2)), B(rng.Bool(75)), errv, cls})
 		}
 		c14Emit(tr, rep, c)
+	}
+}
+
+// ---------------- C14 edges outside the sequential model: a classifier answering codes.OK on refusal; receive and send overlapping on one stream ----------------
+type lockedLog struct {
+	mu sync.Mutex
+	ev [][3]int64 // (kind, limiter id, outcome): 1 acquire, 2 call, 4 completion
+}
+
+func (l *lockedLog) add(k, id, o int64) {
+	l.mu.Lock()
+	l.ev = append(l.ev, [3]int64{k, id, o})
+	l.mu.Unlock()
+}
+func (l *lockedLog) count(k, id int64) int {
+	l.mu.Lock()
+	defer l.mu.Unlock()
+	n := 0
+	for _, e := range l.ev {
+		if e[0] == k && e[1] == id {
+			n++
+		}
+	}
+	return n
+}
+
+type lkListener struct {
+	id  int64
+	log *lockedLog
+}
+
+func (r *lkListener) OnSuccess() { r.log.add(4, r.id, 0) }
+func (r *lkListener) OnIgnore()  { r.log.add(4, r.id, 1) }
+func (r *lkListener) OnDropped() { r.log.add(4, r.id, 2) }
+
+type lkLimiter struct {
+	id    int64
+	grant bool
+	log   *lockedLog
+}
+
+func (r *lkLimiter) Acquire(ctx context.Context) (core.Listener, bool) {
+	r.log.add(1, r.id, 0)
+	if !r.grant {
+		return nil, false
+	}
+	return &lkListener{r.id, r.log}, true
+}
+func (r *lkLimiter) String() string { return fmt.Sprintf("lkLimiter%d", r.id) }
+
+type parkStream struct {
+	log     *lockedLog
+	parkRcv chan chan struct{}
+}
+
+func (f *parkStream) SetHeader(metadata.MD) error  { return nil }
+func (f *parkStream) SendHeader(metadata.MD) error { return nil }
+func (f *parkStream) SetTrailer(metadata.MD)       {}
+func (f *parkStream) Context() context.Context     { return context.Background() }
+func (f *parkStream) SendMsg(m interface{}) error  { f.log.add(2, 2, 0); return nil }
+func (f *parkStream) RecvMsg(m interface{}) error {
+	f.log.add(2, 1, 0)
+	c := make(chan struct{})
+	f.parkRcv <- c
+	<-c
+	return nil
+}
+
+func TestC14Edge(t *testing.T) {
+	rep := NewReport("C14edge")
+	defer rep.Write(t)
+	// (1) the limiter refuses and the limit-exceeded classifier answers codes.OK: the wrapped call is still not made
+	for kind := 1; kind <= 2; kind++ {
+		log := &lockedLog{}
+		lim := &lkLimiter{id: 1, grant: false, log: log}
+		okCls := func(ctx context.Context, method string, req interface{}, l core.Limiter) (interface{}, codes.Code, error) {
+			return "refused", codes.OK, fmt.Errorf("refused politely")
+		}
+		called := 0
+		if kind == 1 {
+			ic := gclgrpc.UnaryServerInterceptor(gclgrpc.WithLimiter(lim), gclgrpc.WithLimitExceededResponseClassifier(okCls))
+			ic(context.Background(), "req", &grpc.UnaryServerInfo{FullMethod: "/m"}, func(ctx context.Context, req interface{}) (interface{}, error) {
+				called++
+				return "resp", nil
+			})
+		} else {
+			ic := gclgrpc.UnaryClientInterceptor(gclgrpc.WithLimiter(lim), gclgrpc.WithLimitExceededResponseClassifier(okCls))
+			ic(context.Background(), "/m", "req", "reply", nil, func(ctx context.Context, method string, req, reply interface{}, cc *grpc.ClientConn, opts ...grpc.CallOption) error {
+				called++
+				return nil
+			})
+		}
+		rep.Evaluations++
+		rep.Distinct("refusal-with-ok-code", fmt.Sprint(kind))
+		if called != 0 || log.count(1, 1) != 1 || log.count(4, 1) != 0 {
+			rep.Violate("grpc:call-on-refusal", fmt.Sprintf("unary %s: the limiter refused (classifier code OK): wrapped call made %d times, acquires %d, completions %d",
+				[]string{"", "server", "client"}[kind], called, log.count(1, 1), log.count(4, 1)), map[string]interface{}{"component": "grpc", "kind": kind})
+		}
+	}
+	// (2) RecvMsg and SendMsg overlap on one stream: each direction completes its own token, exactly once
+	for round := 0; round < 3; round++ {
+		log := &lockedLog{}
+		rl, sl := &lkLimiter{id: 1, grant: true, log: log}, &lkLimiter{id: 2, grant: true, log: log}
+		ic := gclgrpc.StreamServerInterceptor(gclgrpc.WithStreamRecvLimiter(rl), gclgrpc.WithStreamSendLimiter(sl))
+		fs := &parkStream{log: log, parkRcv: make(chan chan struct{}, 1)}
+		_ = ic(nil, fs, &grpc.StreamServerInfo{FullMethod: "/s"}, func(srv interface{}, ss grpc.ServerStream) error {
+			done := make(chan struct{})
+			go func() { ss.RecvMsg("m"); close(done) }()
+			c := <-fs.parkRcv // the receive is inside the underlying stream
+			for i := 0; i <= round; i++ {
+				ss.SendMsg("m") // one or more whole sends meanwhile
+			}
+			close(c)
+			<-done
+			return nil
+		})
+		rep.Evaluations++
+		rep.Distinct("recv-send-overlap", fmt.Sprint(round))
+		if log.count(4, 1) != 1 || log.count(4, 2) != round+1 || log.count(1, 1) != 1 || log.count(1, 2) != round+1 {
+			rep.Violate("grpc:token-count", fmt.Sprintf("a receive overlapped by %d send(s): receive tokens acquired/completed %d/%d, send tokens %d/%d",
+				round+1, log.count(1, 1), log.count(4, 1), log.count(1, 2), log.count(4, 2)), map[string]interface{}{"component": "grpc", "sends": round + 1})
+		}
 	}
 }
